@@ -170,8 +170,12 @@ class ContMixin:
             i = z3.Int('i!ap')
             xt = self.term(v, st, t.args[0])
             st.assume(z3.Select(new, n) == xt)
-            st.assume(z3.ForAll([i], z3.Implies(i != n, z3.Select(new, i) == z3.Select(arr, i)),
-                                patterns=[z3.Select(new, i), z3.Select(arr, i)]))
+            body = z3.Implies(i != n, z3.Select(new, i) == z3.Select(arr, i))
+            try:
+                st.assume(z3.ForAll([i], body, patterns=[z3.Select(new, i), z3.Select(arr, i)]))
+            except z3.Z3Exception:
+                # the old array is a constant array (empty list literal): Select(arr, i) simplifies away, not a pattern
+                st.assume(z3.ForAll([i], body, patterns=[z3.Select(new, i)]))
             if t.args[0].kind == 'bytes':
                 self.bsum_after_append(st, arr, new, n, xt)
             self.write_cont(c, st, t.mk(n + 1, new), node)
